@@ -808,6 +808,18 @@ class GroupBy:
             group_key = self.group_ikey[mask]
             mask_chunks = mask_chunks[first_chunk_in:]
         else:
+            if (
+                self.key_is_chunked
+                and mask is not None
+                and not pd.api.types.is_bool_dtype(mask)
+            ):
+                positions = np.asarray(mask)
+                positions = np.where(positions < 0, positions + len(self), positions)
+                if len(positions) > 1 and not (np.diff(positions) > 0).all():
+                    # repeated or unordered positions select rows with multiplicity and in the
+                    # caller's order, which a per-chunk boolean mask cannot express
+                    self._unify_group_key_chunks()
+                    group_key = self.group_ikey
             if self.key_is_chunked:
                 if not pd.api.types.is_bool_dtype(mask):
                     # Fancy indexing does not work for chunked keys
